@@ -1,4 +1,4 @@
-use std::collections::{BTreeMap, HashMap, HashSet};
+use std::collections::{BTreeMap, BTreeSet, HashMap};
 use std::path::Path;
 
 use serde::Deserialize;
@@ -24,7 +24,8 @@ pub(crate) fn upconvert_kerning(
     glyph_set: &NameList,
 ) -> (Groups, Kerning) {
     // Gather known kerning groups based on the prefixes. This will catch groups that exist in
-    // `groups` but are not referenced in `kerning`.
+    // `groups` but are not referenced in `kerning`. The sets are sorted so that clashing new
+    // names are made unique in the same way on every run.
     let (mut groups_first, mut groups_second) = find_known_kerning_groups(groups);
 
     // Make lists of groups referenced in kerning pairs, based on their side.
@@ -98,9 +99,9 @@ fn make_unique_group_name(name: Name, existing_groups: &Groups) -> Name {
     new_name
 }
 
-fn find_known_kerning_groups(groups: &Groups) -> (HashSet<Name>, HashSet<Name>) {
-    let mut groups_first: HashSet<Name> = HashSet::new();
-    let mut groups_second: HashSet<Name> = HashSet::new();
+fn find_known_kerning_groups(groups: &Groups) -> (BTreeSet<Name>, BTreeSet<Name>) {
+    let mut groups_first: BTreeSet<Name> = BTreeSet::new();
+    let mut groups_second: BTreeSet<Name> = BTreeSet::new();
 
     for name in groups.keys() {
         if name.starts_with("@MMK_L_") {
